@@ -460,6 +460,8 @@ def run(tier, only=None):
     qhat_carry(rep)
     order_duals(rep)
     carry_chain(rep)
+    from . import deadstore
+    deadstore.report(rep, "N9", ("dword.c", "bigint.c", "foam_i.c"), floor_units=3)
     rep.floor("C11 structural obligations", rep.obligations, 15)
     rep.assumptions += ["a call of bintPlus/bintMinus/bintTimes/bintDivide on non-negative operands returns its mathematical result "
                         "(induction on the number of negative operands; the digit-level routines are not analysed)",
